@@ -9,8 +9,8 @@ ToSet(s) == {s[i] : i \in 1..Len(s)}
 TSkip == More /\ Ev.e = "Clock" /\ UNCHANGED cvars /\ Adv
 TReq == More /\ Ev.e = "Req" /\ Req(Ev.id, ToSet(Ev.inm), Ev.ims, Ev.ifm) /\ Adv
 TFwd == More /\ Ev.e = "Fwd" /\ Fwd(Ev.id) /\ Adv
-TOResp == More /\ Ev.e = "OResp" /\ OResp(Ev.v, Ev.status, Ev.etag, Ev.gen, ToSet(Ev.multi)) /\ Adv
-TCResp == More /\ Ev.e = "CResp" /\ CResp(Ev.id, Ev.status, Ev.hv, Ev.bv, Ev.gen, ToSet(Ev.multi)) /\ Adv
+TOResp == More /\ Ev.e = "OResp" /\ OResp(Ev.v, Ev.status, Ev.etag, Ev.gen, ToSet(Ev.multi), Ev.blen) /\ Adv
+TCResp == More /\ Ev.e = "CResp" /\ CResp(Ev.id, Ev.status, Ev.hv, Ev.bv, Ev.gen, ToSet(Ev.multi), Ev.blen, Ev.complete, Ev.declared) /\ Adv
 TNext == TSkip \/ TReq \/ TFwd \/ TOResp \/ TCResp
 Mark == MarkAccepted(h, l)
 ====
